@@ -9,6 +9,7 @@ CONFIGS = {
     "cxx14-notable": ("g++", "-std=c++14", ["-DIMATH_HALF_NO_LOOKUP_TABLE"], "sw"),
     "cxx17-table":   ("g++", "-std=c++17", [], "sw"),
     "cxx20-table":   ("g++", "-std=c++20", [], "sw"),
+    "cxx20-notable": ("g++", "-std=c++20", ["-DIMATH_HALF_NO_LOOKUP_TABLE"], "sw"),      # C++20-only library facilities on the bit-shift path
     "cxx14-f16c":    ("g++", "-std=c++14", ["-mf16c"], "f16c"),
     "cxx14-f16c-upward": ("g++", "-std=c++14", ["-mf16c", "-DSWEEP_FE_UPWARD", "-frounding-math"], "f16c"),   # hardware path under fesetround(FE_UPWARD)
     "cxx14-table-upward": ("g++", "-std=c++14", ["-DSWEEP_FE_UPWARD", "-frounding-math"], "sw"),
